@@ -13,7 +13,7 @@ from vlib.e2e_runner import Result
 
 def strategy(tp):
     txn = st.fixed_dictionaries({
-        "kind": st.sampled_from(["get", "get", "get", "post", "connect", "pipeline"]),
+        "kind": st.sampled_from(["get", "get", "get", "post", "connect", "pipeline", "get-refused", "connect-refused"]),
         "start_ms": st.integers(0, 60),
         "cacheable": st.booleans(),
         "shared_url": st.integers(0, 3),                   # several transactions may hit the same URL (hits, collapsing)
@@ -86,6 +86,8 @@ def settle(env, target=None, deadline_s=25):
 
 def setup(ctx):
     env = ProxyEnv(ctx, conf=CONF, cache_mem="32 MB")
+    from vlib.e2e.squidproc import free_port
+    env.dead_port = free_port()      # nothing listens there: upstream connection attempts are refused
     _baseline(env)
     return env
 
@@ -133,6 +135,9 @@ def run_txn(env, ns, t, idx, socks):
     socks.append(c)
     hostport = "127.0.0.1:%d" % env.origin.port
     kind = t["kind"]
+    if kind.endswith("-refused"):
+        hostport = "127.0.0.1:%d" % env.dead_port
+        kind = kind.split("-")[0]
     if kind == "connect":
         req = ("CONNECT %s HTTP/1.1\r\nHost: %s\r\n\r\n" % (hostport, hostport)).encode()
         body = b"GET %s HTTP/1.1\r\nHost: x\r\n\r\n" % path.encode()
@@ -196,6 +201,8 @@ def execute(env, sc):
             kinds.add("origin-" + t["origin"])
         if t["req_partial"] is not None:
             kinds.add("partial-request")
+        if t["kind"].endswith("-refused"):
+            kinds.add("upstream-connect-refused")
     if len(kinds) >= 3:
         r.nontrivial = True
     r.label("abort-kinds-%d" % min(len(kinds), 6))
